@@ -14,6 +14,11 @@ func ReadRequest(r io.Reader) (apiVersion int16, correlationID int32, clientID s
 		return
 	}
 
+	if size < 0 {
+		err = fmt.Errorf("invalid request size: %d", size)
+		return
+	}
+
 	d.remain = int(size)
 	apiKey := ApiKey(d.readInt16())
 	apiVersion = d.readInt16()
@@ -49,12 +54,12 @@ func ReadRequest(r io.Reader) (apiVersion int16, correlationID int32, clientID s
 	if req.flexible {
 		// In the flexible case, there's a tag buffer at the end of the request header
 		taggedCount := int(d.readUnsignedVarInt())
-		for i := 0; i < taggedCount; i++ {
+		for i := 0; i < taggedCount && d.err == nil; i++ {
 			d.readUnsignedVarInt() // tagID
 			size := d.readUnsignedVarInt()
 
 			// Just throw away the values for now
-			d.read(int(size))
+			d.read(clampLength(size))
 		}
 	}
 
